@@ -11,7 +11,7 @@
    op_nojar excludes only SetCookieJar without a factory (the documented shared jar);
    op_api excludes appending to the wrapper lists behind WrapRoundTrip's back (no API does). *)
 From Coq Require Import List Arith Bool.
-From ReqV Require Import Model.Settings Model.ReExec Model.LiveSel Gen.CloneTable Proofs.SettingsHeap Proofs.SettingsValue Proofs.SettingsSim Proofs.ReExecProofs Proofs.C19Top.
+From ReqV Require Import Model.Settings Model.ReExec Model.LiveSel Model.Handshake Gen.CloneTable Proofs.SettingsHeap Proofs.SettingsValue Proofs.SettingsSim Proofs.ReExecProofs Proofs.C19Top.
 Import ListNotations.
 
 (* the Clone code, as read from the source by gosync, deep-copies every reference the model tracks,
@@ -179,6 +179,27 @@ Print Assumptions C19_force_version_governs_regardless_of_cached_connection.
 Theorem C19_unguarded_cached_lookup_refuted : live_sel {| g_h1guard := false |} 1 true = Some 2.
 Proof. exact unguarded_refuted. Qed.
 Print Assumptions C19_unguarded_cached_lookup_refuted.
+
+(* ---------- the TLS handshake option and Clone (Model/Handshake.v) ---------- *)
+(* the two setters and Transport.Clone are written as the model assumes (from the source) *)
+Theorem C19_handshake_setters_as_modelled : gen_hs = good_hs.
+Proof. reflexivity. Qed.
+Print Assumptions C19_handshake_setters_as_modelled.
+
+(* for EVERY order of SetTLSFingerprint* / SetTLSHandshake calls: a clone handshakes with exactly what the
+   original handshakes with - the caller's function, or the same fingerprint (installed anew, bound to the clone) *)
+Theorem C19_clone_keeps_handshake : forall ops,
+  let s := fold_left (happly gen_hs) ops hstate0 in
+  hs_fn (hclone gen_hs s) = hs_fn s /\ hs_inv (hclone gen_hs s).
+Proof. exact clone_keeps_handshake. Qed.
+Print Assumptions C19_clone_keeps_handshake.
+
+Theorem C19_stale_fingerprint_hook_refuted :
+  let t := {| h_custom_clears_hook := false; h_finger_sets_hook := true; h_clone_runs_hook := true |} in
+  let s := fold_left (happly t) [HSetFinger 1; HSetCustom 7] hstate0 in
+  hs_fn s = HCustom 7 /\ hs_fn (hclone t s) = HFinger 1.
+Proof. exact stale_hook_refuted. Qed.
+Print Assumptions C19_stale_fingerprint_hook_refuted.
 
 Example C19_nonvacuous :
   Forall op_api witness /\ Forall op_nojar witness /\
